@@ -110,6 +110,8 @@ type Env struct {
 	Level2   bool
 	// AllowBubbleErr: the property judges a failed bubble itself (coroutine clean-up, C05)
 	AllowBubbleErr bool
+	// MapSeed seeds Go's map hash seeds and iteration offsets for the duration of the call
+	MapSeed uint64
 }
 
 type PanicInfo struct {
@@ -369,6 +371,8 @@ func Exec(op Op, env *Env) *Outcome {
 				out.Panics = append(out.Panics, PanicInfo{Task: "0", Value: fmt.Sprint(p), Site: "caller", Stack: string(buf[:runtimeStack(buf)])})
 			}
 		}()
+		simrt.SeedMaps(env.MapSeed | 1)
+		defer simrt.SeedMaps(0)
 		out.Err = invoke(op, wr, rd, root, cb, opOptions(op, ctx, target))
 		out.Returned = true
 	}()
@@ -428,6 +432,8 @@ func execSim(op Op, env *Env) *Outcome {
 			}
 			run.Begin()
 			defer run.End()
+			simrt.SeedMaps(env.MapSeed | 1)
+			defer simrt.SeedMaps(0)
 			d = installDisk(env.Disk, true)
 			defer simfs.Uninstall()
 			ctx := context.Background()
